@@ -1,6 +1,7 @@
 package main
 
 import (
+	"io/fs"
 	"bytes"
 	"encoding/json"
 	"fmt"
@@ -296,9 +297,36 @@ type Store struct {
 	ReadHook    func(c cid.Cid) error   // optional
 	FailOpenAt  int                     // k-th (1-based) write-open fails; 0 = never
 	FailCommit  int                     // k-th (1-based) commit fails; 0 = never
+	FailFlavor  int                     // 0: FaultErr; 1: *fs.PathError{ENOENT}; 2: fmt.Errorf("%w", fs.ErrNotExist) — what a file-system block store returns
 	nOpen       int
 	nCommit     int
 	Events      []string // "open", "commit:<cid>", "failopen", "failcommit:<cid>"
+}
+
+// flavored wraps the injected write failure the way real block stores do
+func (s *Store) flavored(kind uint64) error {
+	switch s.FailFlavor {
+	case 1:
+		return &fs.PathError{Op: "open", Path: "blocks/XX/blk.data", Err: wrappedFault{FaultErr{kind}, fs.ErrNotExist}}
+	case 2:
+		return fmt.Errorf("blockstore: %w", wrappedFault{FaultErr{kind}, fs.ErrNotExist})
+	}
+	return FaultErr{kind}
+}
+
+// wrappedFault is an injected fault that also matches a standard sentinel through errors.Is
+type wrappedFault struct {
+	FaultErr
+	sentinel error
+}
+
+func (w wrappedFault) Is(target error) bool { return target == w.sentinel }
+func (w wrappedFault) As(target interface{}) bool {
+	if fe, ok := target.(*FaultErr); ok {
+		*fe = w.FaultErr
+		return true
+	}
+	return false
 }
 
 func NewStore() *Store {
@@ -329,7 +357,7 @@ func (s *Store) LinkSystem() *ipld.LinkSystem {
 		s.nOpen++
 		if s.FailOpenAt != 0 && s.nOpen == s.FailOpenAt {
 			s.Events = append(s.Events, "failopen")
-			return nil, nil, FaultErr{500}
+			return nil, nil, s.flavored(500)
 		}
 		s.Events = append(s.Events, "open")
 		var buf bytes.Buffer
@@ -338,7 +366,7 @@ func (s *Store) LinkSystem() *ipld.LinkSystem {
 			c := l.(cidlink.Link).Cid
 			if s.FailCommit != 0 && s.nCommit == s.FailCommit {
 				s.Events = append(s.Events, "failcommit:"+c.String())
-				return FaultErr{501}
+				return s.flavored(501)
 			}
 			s.Blocks[c.KeyString()] = append([]byte(nil), buf.Bytes()...)
 			s.Commit = append(s.Commit, c)
